@@ -307,7 +307,12 @@ func RunDispatch(t *testing.T, sc *DScenario) (recs []interface{}, failure strin
 				default:
 					a = p.next("app", 0)
 				}
-				h.ServeIncoming(Inbound(a, peerID, ourID, ts(time.Now())))
+				raw := Inbound(a, peerID, ourID, ts(time.Now()))
+				if stp.Ty == "d" || stp.Ty == "v" { // an application message of a lower-case type (FIX types are case sensitive)
+					a2 := *a
+					raw = InboundOfType(&a2, stp.Ty, peerID, ourID, ts(time.Now()))
+				}
+				h.ServeIncoming(raw)
 			}
 			synctest.Wait()
 			mu.Lock()
